@@ -1211,3 +1211,16 @@ def terminal_values(fv, name, at, depth=6, stop=()):
         return True
 
     return out if rec(name, node, depth) else None
+
+
+def count_on_normal_paths(fv, stmts):
+    """set of how many of ``stmts`` (statements/expressions) are executed along the acyclic paths from the function entry to a
+    normal exit (return or falling off the end); paths that end in `raise` are not counted"""
+    nodes = [fv.node_of(x) for x in stmts]
+    out = set()
+    for p in fv.cfg.paths(fv.cfg.entry, {fv.cfg.exit, fv.cfg.raise_exit}):
+        if p[-1][0] is fv.cfg.raise_exit:
+            continue
+        on = {id(n) for n, _ in p}
+        out.add(sum(1 for n in nodes if n is not None and id(n) in on))
+    return out
